@@ -74,7 +74,10 @@ def known_match(known, prop_id, sig):
             continue
         if k['signature'] == sig:
             return k
-        if k['signature'].endswith('*') and sig.startswith(k['signature'][:-1]):
+        if k['signature'].endswith('*') and not k['signature'].startswith('*') and sig.startswith(k['signature'][:-1]):
+            return k
+        if k['signature'].startswith('*') and k['signature'].endswith('*') and len(k['signature']) > 2 \
+                and k['signature'][1:-1] in sig:
             return k
         if k['signature'].startswith('*') and sig.endswith(k['signature'][1:]):
             return k
